@@ -583,7 +583,8 @@ def oracle_func(op, ob):
 def mk_request(rng, valid=True):
     key = base64.b64encode(rnd_bytes(rng, 16)).decode()
     protos = rng.choice([None, "binary", "base64", "binary, base64", "base64, binary", "chat", "chat, binary",
-                         "superbase64x", "BINARY"])
+                         "superbase64x", "BINARY", "binary, chat", "mqtt,binary,chat", "chat, base64, mqtt",
+                         ", ".join(rng.sample(["binary", "chat", "mqtt", "soap", "base64", "wamp"], rng.randrange(1, 5)))])
     path = rng.choice(["/", "/websockify", "/a/b?token=xyz", "/" + "p" * rng.randrange(1, 200)])
     def cs(s):
         r = rng.random()
@@ -675,14 +676,52 @@ def mk_exotic_request(rng):
     return (eol.join(first + hdrs) + eol + tail).encode("latin-1"), closed
 
 
+DET_OFFERS = [
+    None, [""], ["binary"], ["base64"], ["binary, base64"], ["base64, binary"], ["binary,base64"], ["base64,binary"],
+    ["binary, chat"], ["chat, binary"], ["binary,chat"], ["chat,binary"], ["mqtt, binary, chat"], ["chat,binary,mqtt"],
+    ["mqtt , binary , chat"], [" binary"], ["binary "], ["chat ,binary"], ["binary,  chat"],
+    ["base64, chat"], ["chat, base64"], ["base64,chat"], ["mqtt, base64, chat"], ["chat,base64,mqtt"],
+    ["chat, binary, base64"], ["base64, chat, binary"], ["binary, mqtt, base64, chat"],
+    ["chat"], ["chat, mqtt"], ["mqtt,chat"], ["BINARY"], ["Binary, chat"], ["chat, BASE64"], ["Base64"], ["binary, BASE64"],
+    ["v.binary.k"] and ["chat, v1.mqtt"], ["chat", "binary"], ["binary", "chat"], ["binary, chat", "mqtt"], ["mqtt", "binary, chat"],
+    ["chat", "mqtt, binary, soap"], ["base64", "binary"], ["binary", "base64"], ["chat, mqtt", "soap"],
+]
+
+
+def det_offer_requests():
+    """deterministic upgrade requests, one per offer in DET_OFFERS (a list = one header line per
+    element, None = no Sec-WebSocket-Protocol header), in two header orders / name spellings"""
+    out = []
+    for n, offer in enumerate(DET_OFFERS):
+        key = base64.b64encode(hashlib.sha1(b"det-offer-%d" % n).digest()[:16]).decode()
+        pl = [] if offer is None else [("Sec-WebSocket-Protocol" if n % 3 else "sec-websocket-protocol") + ": " + o for o in offer]
+        hdrs = ["Host: example.org:5900", "Upgrade: websocket", "Connection: Upgrade", "Sec-WebSocket-Key: " + key,
+                "Origin: http://example.org", "Sec-WebSocket-Version: 13"]
+        if n % 2:
+            hdrs = pl + hdrs
+        else:
+            hdrs = hdrs[:4] + pl + hdrs[4:]
+        out.append(("\r\n".join(["GET /websockify HTTP/1.1"] + hdrs) + "\r\n\r\n").encode())
+    return out
+
+
+def offer_tokens(value):
+    return [t.strip(" \t") for t in value.split(",") if t.strip(" \t")]
+
+
 def oracle_hs(req, ob):
-    """RFC 6455 4.2.2 on a request the generator made: 101 + correct accept + sub-protocol choice"""
+    """RFC 6455 4.2.2 on a well-formed request, from the wire only (no model): status 101, header
+    syntax, Sec-WebSocket-Accept = base64(sha1(key+GUID)), and the Sec-WebSocket-Protocol value of the
+    answer, if present, is exactly ONE token of the client's comma-separated offer and is binary or
+    base64; framing mode = answered sub-protocol"""
     text = req.decode("latin-1")
     lines = text.split("\r\n")
-    hd = {}
+    hd, offers = {}, []
     for l in lines[1:]:
         if ": " in l:
             k, v = l.split(": ", 1); hd[k.lower()] = v
+            if k.lower() == "sec-websocket-protocol":
+                offers.append(v)
     ok_expected = (lines[0].startswith("GET ") and "sec-websocket-key" in hd and "host" in hd and
                    hd.get("sec-websocket-version") == "13" and ("origin" in hd or "sec-websocket-origin" in hd))
     if ob.startswith("hs fail"):
@@ -693,28 +732,39 @@ def oracle_hs(req, ob):
     f = dict(x.split("=", 1) for x in ob.split()[2:])
     resp = bytes.fromhex(f["resp"]).decode("latin-1")
     acc = base64.b64encode(hashlib.sha1(hd["sec-websocket-key"].encode() + GUID).digest()).decode()
-    rl = resp.split("\r\n")
-    if not rl[0].startswith("HTTP/1.1 101"):
+    if not resp.endswith("\r\n\r\n"):
+        return "response not terminated by an empty line"
+    rl = resp[:-4].split("\r\n")
+    if not rl[0].startswith("HTTP/1.1 101 "):
         return "status line %r" % rl[0]
     rh = {}
     for l in rl[1:]:
-        if ": " in l:
-            k, v = l.split(": ", 1); rh[k.lower()] = v
+        if ": " not in l or l != l.strip() or not l.split(": ", 1)[0].replace("-", "").isalnum():
+            return "malformed response header line %r" % l
+        k, v = l.split(": ", 1)
+        if k.lower() in rh:
+            return "response header %r repeated" % k
+        rh[k.lower()] = v
+    if rh.get("upgrade", "").lower() != "websocket" or rh.get("connection", "").lower() != "upgrade":
+        return "Upgrade/Connection headers of the 101 answer: %r / %r" % (rh.get("upgrade"), rh.get("connection"))
     if rh.get("sec-websocket-accept") != acc:
         return "accept key %r, expected %r" % (rh.get("sec-websocket-accept"), acc)
-    offered = [p.strip() for p in hd.get("sec-websocket-protocol", "").split(",") if p.strip()]
-    want = "base64" if "base64" in offered else ("binary" if "binary" in offered else None)
-    if offered == [] or set(offered) <= {"binary", "base64"} or want is None:
-        # exact-token requests: the choice must be the offered token (base64 preferred by this server)
-        got = rh.get("sec-websocket-protocol")
-        if want is not None and got != want:
-            return "sub-protocol %r chosen, offered %r" % (got, offered)
-        if want is None and not any(("base64" in p or "binary" in p) for p in offered) and got is not None:
-            return "sub-protocol %r chosen although none of %r is supported" % (got, offered)
-        if (f["b64"] == "1") != (got == "base64"):
-            return "base64 flag %s with sub-protocol %r" % (f["b64"], got)
-    if not resp.endswith("\r\n\r\n"):
-        return "response not terminated by an empty line"
+    offered = [t for o in offers for t in offer_tokens(o)]
+    got = rh.get("sec-websocket-protocol")
+    # this server matches by substring: an offered token that merely CONTAINS the word (superbase64x)
+    # is a documented observation, not judged here
+    tricky = any(t not in ("binary", "base64") and ("binary" in t or "base64" in t) for t in offered)
+    if got is not None:
+        if got not in ("binary", "base64"):
+            return "sub-protocol %r answered: not a single sub-protocol this server speaks (offer %r)" % (got, offers)
+        if not tricky and got not in offered:
+            return "sub-protocol %r answered, which is not one of the offered tokens %r" % (got, offered)
+    if not tricky and len(offers) <= 1:
+        want = "base64" if "base64" in offered else ("binary" if "binary" in offered else None)
+        if got != want:
+            return "sub-protocol %r chosen, offered %r (expected %r)" % (got, offered, want)
+    if (f["b64"] == "1") != (got == "base64"):
+        return "base64 flag %s with sub-protocol %r" % (f["b64"], got)
     rest = bytes.fromhex(f["rest"]) if f["rest"] != "-" else b""
     try:
         if deframe_server(rest, f["b64"] == "1") != b"RFB 003.008\n":
@@ -1071,7 +1121,7 @@ def run(ctx):
 
     # ---- function-level ops (encoder, chunked write, base64, sha1) and handshakes
     corpus_hs, corpus_pk = load_corpus_ops()
-    flines = corpus_hs + func_lines(rng, ctx.tier)
+    flines = corpus_hs + ["hs " + r.hex() for r in det_offer_requests()] + func_lines(rng, ctx.tier)
     exotic = set(corpus_hs)      # handshake requests outside the oracle's well-formed class: exact comparison only
     hs_meta = []
     for i in range(60 if quick else 400):
